@@ -11,14 +11,30 @@ use vharness::testbed::{self, c03, c04, c06, c07, c11, c12, c15, c16, c17, l3rou
 #[global_allocator]
 static GLOBAL: Counting = Counting;
 
+/// What `selium-server -vvvv` does in main.rs: a logger that formats every record of the server (and protocol /
+/// client) crates, so that whatever the log statements evaluate is evaluated in every L3 stage too. Output is discarded.
+fn install_discarding_logger() {
+    if std::env::var("VERIF_LOG").map(|v| v == "off").unwrap_or(false) {
+        return;
+    }
+    let mut b = env_logger::Builder::new();
+    b.filter_module("selium_server", log::LevelFilter::Trace)
+        .filter_module("selium_protocol", log::LevelFilter::Trace)
+        .filter_module("selium_std", log::LevelFilter::Trace)
+        .filter_module("selium", log::LevelFilter::Trace)
+        .target(env_logger::Target::Pipe(Box::new(std::io::sink())));
+    let _ = b.try_init();
+}
+
 fn main() {
     let args = Args::from_env();
+    install_discarding_logger();
     if args.flag("c06-l3-child") {
         c06::child_main(args.num("seed", 1), args.num("n", 100), &args.get_or("child-out", "/dev/null"));
         return;
     }
     if args.flag("serve") {
-        c16::serve_main_at(&args.get_or("certs", ""), &args.get_or("addr-file", ""), &args.get_or("bind", "127.0.0.1:0"));
+        c16::serve_main_with(&args.get_or("certs", ""), &args.get_or("addr-file", ""), &args.get_or("bind", "127.0.0.1:0"), args.get("ca"));
         return;
     }
     if let Some(name) = args.get("c09-child") {
@@ -45,7 +61,7 @@ fn main() {
         "C11" => c11::run(&mut rep, &tier, seed),
         "C12" => c12::run(&mut rep, &tier, seed),
         "C14" => c12::run_c14(&mut rep, &tier, seed),
-        "C15" => c15::run(&mut rep, &tier, seed),
+        "C15" => c15::run(&mut rep, &tier, seed, &exe),
         "C16" => c16::run(&mut rep, &tier, seed, &exe),
         "C17" => c17::run(&mut rep, &tier, seed),
         _ => {
